@@ -49,6 +49,28 @@ class NonTermination(Exception):
     pass
 
 
+class time_limit(object):
+    """Wall-clock watchdog around one call of the code under test (SIGALRM): a rewrite that does not
+    return within the limit is reported as non-termination (and then replayed concretely)."""
+
+    def __init__(self, seconds):
+        self.seconds = seconds
+
+    def _fire(self, signum, frame):
+        raise NonTermination("no result after %d s" % self.seconds)
+
+    def __enter__(self):
+        import signal
+        self.old = signal.signal(signal.SIGALRM, self._fire)
+        signal.setitimer(signal.ITIMER_REAL, self.seconds)
+
+    def __exit__(self, *a):
+        import signal
+        signal.setitimer(signal.ITIMER_REAL, 0)
+        signal.signal(signal.SIGALRM, self.old)
+        return False
+
+
 _counter = [0]
 _wrapped = [False]
 
@@ -108,7 +130,8 @@ def run_task(task, mode, prop, meta):
         e = build_template(task, cf)
         info['e'] = e
         try:
-            r = simp(e)
+            with time_limit(task.get('call_limit_s', 40)):
+                r = simp(e)
         except NonTermination as ex:
             eng.fail('terminates', dict(exc=str(ex)))
             return
@@ -143,7 +166,8 @@ def run_task(task, mode, prop, meta):
             adapt.reset()
             _counter[0] = 0
             try:
-                r2 = simp(r)
+                with time_limit(task.get('call_limit_s', 40)):
+                    r2 = simp(r)
             except NonTermination as ex:
                 eng.fail('terminates-2', dict(exc=str(ex)))
                 return
@@ -159,6 +183,26 @@ def run_task(task, mode, prop, meta):
                 rec['e'] = adapt.expr_to_src(adapt.concretize_expr(e, lambda s: _mv(m, s)))
                 rec['r1'] = str(adapt.concretize_expr(r, lambda s: _mv(m, s)))[:300]
                 rec['r2'] = str(adapt.concretize_expr(r2, lambda s: _mv(m, s)))[:300]
+                return
+            # context consistency: inside one call, under an opaque parent, e and its
+            # children-simplified form R must both come out as r (memoisation must not leak
+            # half-rewritten forms), and that output must be stable too
+            from miasm.expression.expression import ExprOp
+            try:
+                with time_limit(task.get('call_limit_s', 40)):
+                    adapt.reset()
+                    R = rebuild_children_simplified(e, simp)
+                    adapt.reset()
+                    t = simp(ExprOp('verif_opaque', e, R))
+                    t2 = simp(t)
+            except NonTermination as ex:
+                eng.fail('terminates-ctx', dict(exc=str(ex)))
+                return
+            except Exception as ex:
+                eng.fail('no-exception-ctx', dict(exc="%s: %s" % (type(ex).__name__, ex)))
+                return
+            eng.oblige('context-consistent', z3.And(adapt.structeq(t, ExprOp('verif_opaque', r, r)),
+                                                    adapt.structeq(t2, t)))
 
     def _mv(m, s):
         return m.eval(s.z, model_completion=True).as_signed_long()
@@ -195,6 +239,21 @@ def _mem_bytes(m, ref, e, r, ids):
     return {str(k): v for k, v in mem.items()}
 
 
+def rebuild_children_simplified(e, simp):
+    from miasm.expression.expression import ExprOp, ExprCompose, ExprCond, ExprSlice, ExprMem
+    if e.is_op():
+        return ExprOp(e.op, *[simp(a) for a in e.args])
+    if e.is_compose():
+        return ExprCompose(*[simp(a) for a in e.args])
+    if e.is_cond():
+        return ExprCond(simp(e.cond), simp(e.src1), simp(e.src2))
+    if e.is_slice():
+        return ExprSlice(simp(e.arg), e.start, e.stop)
+    if e.is_mem():
+        return ExprMem(simp(e.ptr), e.size)
+    return e
+
+
 # ---------------------------------------------------------------------------------------------
 def rebuild_concrete(w):
     """Rebuild the concrete expression of a witness on unpatched miasm."""
@@ -213,22 +272,38 @@ def replay(w, mode):
     simp = getattr(S, w['task_desc']['simp'])
     ob = w.get('ob')
     try:
-        r = simp(e)
+        with time_limit(20):
+            r = simp(e)
+    except NonTermination as ex:
+        return True, "%s(%s) does not terminate: %s" % (w['task_desc']['simp'], e, ex)
     except RecursionError as ex:
         return True, "%s(%s) does not terminate: %r" % (w['task_desc']['simp'], e, ex)
     except Exception as ex:
         return True, "%s(%s) raised %s: %s" % (w['task_desc']['simp'], e, type(ex).__name__, ex)
-    if ob in ('no-exception', 'terminates', 'no-exception-2', 'terminates-2') and mode == 'meaning':
-        return False, "no exception on concrete run: %s -> %s" % (e, r)
+    if ob in ('no-exception', 'terminates') or (ob in ('no-exception-2', 'terminates-2') and mode == 'meaning'):
+        return False, "no exception / terminates on concrete run: %s -> %s" % (e, r)
     if r.size != e.size:
         return True, "size changed: %s (%d) -> %s (%d)" % (e, e.size, r, r.size)
     if mode == 'fixpoint':
         try:
-            r2 = simp(r)
+            with time_limit(20):
+                r2 = simp(r)
         except Exception as ex:
-            return True, "second simplification of %s raised %r" % (r, ex)
+            return True, "second simplification of %s raised/did not terminate: %r" % (r, ex)
         if r2 != r:
             return True, "%s -> %s -> %s (not a fixed point)" % (e, r, r2)
+        from miasm.expression.expression import ExprOp
+        for s_ in (S.expr_simp, S.expr_simp_explicit, S.expr_simp_high_to_explicit):
+            s_.cache.clear()
+        R = rebuild_children_simplified(e, simp)
+        for s_ in (S.expr_simp, S.expr_simp_explicit, S.expr_simp_high_to_explicit):
+            s_.cache.clear()
+        t = simp(ExprOp('verif_opaque', e, R))
+        if t != ExprOp('verif_opaque', r, r):
+            return True, "in one call %s(verif_opaque(e, R)) = %s but %s(e) = %s (e = %s, R = e with simplified children)" % (
+                w['task_desc']['simp'], t, w['task_desc']['simp'], r, e)
+        if simp(t) != t:
+            return True, "%s is an output but simplifies again to %s" % (t, simp(t))
         return False, "%s -> %s is stable" % (e, r)
     # meaning: model valuation first, then a deterministic search over valuations
     ids = dict(w.get('ids', {}))
